@@ -20,6 +20,7 @@ Faults (all drawn from the run's ``fault`` stream, all counted):
 """
 
 import errno
+import io
 
 from . import sched as _sched
 
@@ -38,7 +39,7 @@ class SimFile(object):
         self.dead = False       # after a crash: every call is discarded
         self.stats = stats if stats is not None else {}
         self.in_write = None    # data of the write call in progress (crash observers)
-        self.closed = False
+        self._closed = False
         self.invoked = []       # (stamp, raw) of every write call entered (oracle use)
 
     # -- helpers
@@ -112,7 +113,7 @@ class SimFile(object):
         self._yield("file.flush.done")
 
     def close(self):
-        self.closed = True
+        self._closed = True
 
     # -- observation
     def durable(self):
@@ -124,3 +125,14 @@ class SimFile(object):
         parts = data.split(b"\n")
         tail = parts.pop()
         return parts, tail
+
+
+def make_simfile(base, *a, **kw):
+    """SimFile that also is an instance of one of the io base classes (how a destination decides between
+    text and binary must not depend on which abstract base a file object happens to derive from)."""
+    if base in (None, "plain"):
+        return SimFile(*a, **kw)
+    bases = {"iobase": io.IOBase, "textiobase": io.TextIOBase, "bufferediobase": io.BufferedIOBase,
+             "rawiobase": io.RawIOBase}
+    cls = type("SimFile_" + base, (SimFile, bases[base]), {})
+    return cls(*a, **kw)
